@@ -131,6 +131,14 @@ func verifExists(lo, hi int, f func(i int) bool) bool {
 func verifAssigns(ps ...any)          {}
 func verifFresh(ps ...any) bool       { return true }
 func verifDisjoint(a, b any) bool     { return true }
+func verifSeparate(a, b any) bool     { return true }
+func verifSameSlice(a, b any) bool {
+	x, y := reflect.ValueOf(a), reflect.ValueOf(b)
+	if x.Kind() != reflect.Slice || y.Kind() != reflect.Slice {
+		return false
+	}
+	return x.Pointer() == y.Pointer()
+}
 func verifUnchanged(ps ...any) bool   { return true }
 func verifIte[T any](c bool, a, b T) T {
 	if c {
@@ -204,6 +212,10 @@ func buildAsserts(u *Unit, o *Obligation) []*Term {
 func evalTerms(u *Unit, o *Obligation, pins map[*Term]*big.Int, terms []*Term, scratch string) (map[int]*big.Int, bool) {
 	tb := u.tb
 	asserts := buildAsserts(u, o)
+	if u.failAsserts != nil && u.failAsserts[o] != nil {
+		// the (case-split, pruned) query that the solver found satisfiable
+		asserts = append([]*Term{}, u.failAsserts[o]...)
+	}
 	for t, v := range pins {
 		switch t.Sort.K {
 		case KBV:
@@ -650,6 +662,13 @@ func genReplayTest(u *Unit, r *Result, w *World, scratch string) (string, []stri
 				}
 			}
 		}
+		seenCap := map[int]bool{}
+		for _, c := range u.sliceCaps {
+			if !seenCap[c.id] && len(seenCap) < 64 {
+				seenCap[c.id] = true
+				extra = append(extra, u.tb.Ule(c, u.tb.BVU(64, bound)))
+			}
+		}
 		if len(extra) == 0 {
 			break
 		}
@@ -661,6 +680,9 @@ func genReplayTest(u *Unit, r *Result, w *World, scratch string) (string, []stri
 		if vals, ok := evalTerms(u, r.Obl, pins, scalars, scratch); ok {
 			for _, sl := range scalars {
 				vb.pins[sl] = vals[sl.id]
+			}
+			for e := range pins {
+				vb.pins[e] = big.NewInt(1) // keep the size bounds for the memory-content queries
 			}
 			small = true
 			break
